@@ -656,6 +656,14 @@ func hashBytes(fr *frame, fn string, in []value) []byte {
 			continue
 		}
 		c := strEqTerm(fr, h.in, sv)
+		if ps.NoHashFork && !c.IsConst() {
+			// stated bound: two hash inputs that can differ are taken to differ (the
+			// "equal inputs" branch is explored only when the path condition forces it)
+			if fr.decideNoFork(c, false) {
+				return h.digest
+			}
+			continue
+		}
 		if fr.decide(c) {
 			return h.digest
 		}
